@@ -1,6 +1,8 @@
 import KyupyVerif.Proofs.Stil
 import KyupyVerif.Proofs.MvChk
 import KyupyVerif.Gen.MvTables
+import KyupyVerif.Proofs.StilSim
+import KyupyVerif.Drv.StilSim
 /-! # C18 — STIL patterns map scan data onto flip-flops by chain order and inversion
 
 Object: the hand-written model `KV.Stil` (Model/Stil.lean) of `stil.py` after parsing, in property mode
@@ -17,7 +19,21 @@ position counted from scan-out, `markers pre` / `markers post` the number of "!"
 **Correspondence (sampled, harness/c18.py):** model in property mode = real `StilFile.tests/tests_loc/responses` on generated
 circuit x STIL-text pairs, the model being fed with the real parse result; the lark grammar is exercised, not modelled.
 **Oracle:** real results vs the generator's ground truth (which flip-flop / port must hold which value).
-The 8-valued simulation inside `tests_loc` is a parameter (`nxt`) of the model; C02 is about that simulation. -/
+The 8-valued simulation inside `tests_loc` is a parameter (`nxt`) of `Stil.testsLoc`; section "end to end" below instantiates it
+with `StilSim.nxtOf` — the real 8-valued dispatch `semL8` on the `SimOps` program of the netlist, stimulus = init column on
+fresh memory, rows read at the captured lines — and composes with C02:
+* `tests_loc_end_to_end` (+ `_input`, `_open`, `tests_loc_rows`): the value for scan cell `x` is `mv_transition(loaded value,
+  σ(data line of x))`, σ any (= the unique, `loc_labelling_unique`) labelling consistent with the netlist under the assignment
+  `loc_assignment_state/_input/_rest`; every well-formed netlist, topological order, chain / marker / pattern set;
+* `s_nodes_bridge`: the STIL model's `Circ` and the netlist `Net` have the same `s_nodes` when `compatB` (same `io_nodes`, same
+  node list) holds; `nxtOf_has_shape`; `driver_evaluates_nxtOf`: the driver's array executor computes `nxtOf`;
+  `nxtOf_memory`: the memory row `c_to_s` reads for position `i` under the map of the `SimOps` model (no `c_reuse`, no
+  `strip_forks`, any capacities) is entry `i` of the model's column (composition with C08).
+**Correspondence for the composition:** `nxtOf` = `bp_to_mv(s[1])` of the LogicSim inside the real `tests_loc` (recorded, and
+recomputed on the init matrix) and `tests_loc` of the model with `nxtOf` = the real result, on every generated case; `compatB`,
+`wfB`, `orderOKB`, `forksOKB` evaluated by the driver on every real circuit and order. Not theorem: that `SimOps.__init__` /
+`LogicSim` compute the rows and memory behaviour of their models (exact correspondence in C01/C08; signal level here),
+`mv_to_bp`/`bp_to_mv` packing (C15), the optional `init_filter`/`launch_filter` (identity). -/
 namespace KV.C18
 open KV KV.Stil
 
@@ -186,14 +202,14 @@ theorem names_resolve (c : Circ) (fl : File) (M : List (List V3))
 /-- the interface of `_maps` as found equals `s_nodes` exactly on circuits whose state-element kinds contain the
 upper-case substring `DFF` and that have no latches -/
 theorem legacy_interface_agrees (c : Circ)
-    (h : ∀ n ∈ c.nodes, hasSub "dff".toList (lowerOf n.2) = hasSub "DFF".toList n.2.toList ∧
-                        hasSub "latch".toList (lowerOf n.2) = false) :
+    (h : ∀ n ∈ c.nodes, Stil.hasSub "dff".toList (lowerOf n.2) = Stil.hasSub "DFF".toList n.2.toList ∧
+                        Stil.hasSub "latch".toList (lowerOf n.2) = false) :
     c.upperDffIntf = c.sNodes := by
   unfold Circ.upperDffIntf Circ.sNodes
-  have h1 : (c.nodes.filter fun n => hasSub "latch".toList (lowerOf n.2)) = [] := by
+  have h1 : (c.nodes.filter fun n => Stil.hasSub "latch".toList (lowerOf n.2)) = [] := by
     rw [List.filter_eq_nil_iff]; intro n hn; have h2 := (h n hn).2; simp_all
-  have h2 : (c.nodes.filter fun n => hasSub "dff".toList (lowerOf n.2)) =
-      c.nodes.filter fun n => hasSub "DFF".toList n.2.toList := by
+  have h2 : (c.nodes.filter fun n => Stil.hasSub "dff".toList (lowerOf n.2)) =
+      c.nodes.filter fun n => Stil.hasSub "DFF".toList n.2.toList := by
     apply List.filter_congr; intro n hn; exact (h n hn).1
   rw [h1, h2]; simp
 
@@ -335,6 +351,206 @@ theorem loc_transition_input (c : Circ) (fl : File) (nxt M : List (List V3)) (i 
           exact hd _ ((hld _).subset h1) _ hrow rfl
         · exact hdisj _ (List.mem_append_right _ hrow) _ h1 rfl
 
+/-! ## launch-on-capture, end to end: the simulation inside `tests_loc` is no longer a parameter (composition with C02)
+
+`StilSim.nxtOf c fl net order` (Model/StilSim.lean, Proofs/StilSim.lean) is the matrix `tests_loc` reads back from its own
+`LogicSim(circuit, m=8)`: per pattern, the real 8-valued dispatch `semL8` runs the `SimOps` program of the netlist
+(`genOps Gen.kindPrefixes net order false`) on the stimulus `envOf net init` — input slot of `s_nodes` position `r` = row `r` of
+the `init` column, every other signal `ZERO` (fresh memory) — and row `r` is `captured`: the value of the line on input pin 0 of
+the `r`-th `s_nodes` element.  `net : Net` is the canonical dump of the same `Circuit` whose names/kinds are `c : Circ`
+(`compatB c net names`, decidable, evaluated by the driver on every generated case).  `σ` below is ANY labelling consistent with
+the netlist (`NetConsistent`, specification evaluator's gate equations over `specNot`/`prim8`) for that stimulus — by
+`loc_labelling_unique` there is exactly one on the lines. -/
+open KV.StilSim
+
+/-- the driver's `stilsim` command evaluates `nxtOf` / `tests_loc` with `nxtOf`: its dispatch is `semL8` by definition, its
+array executor (`StilSim.execA`) computes the rows of `exec` on every well-formed netlist and topological order -/
+theorem driver_sem : Drv.StilSim.sem8L = semL8 := rfl
+theorem driver_evaluates_nxtOf (c : Circ) (fl : File) (net : Net) (order : List Nat) (hwf : net.wfB = true)
+    (ho : orderOKB net order = true) :
+    Drv.StilSim.nxtCols .spec c fl net order = nxtOf c fl net order := nxtOfA_eq c fl net order hwf ho
+
+/-- **bridge.** the two views of the circuit have the same `s_nodes`, node index ↦ name -/
+theorem s_nodes_bridge (c : Circ) (net : Net) (names : List String) (h : compatB c net names = true) :
+    c.sNodes = net.sNodes.map (nameAt names) := sNodes_bridge h
+
+/-- the simulated matrix always has the shape `tests_loc` expects (the `shape` error of the parameterised model cannot occur) -/
+theorem nxtOf_has_shape (c : Circ) (fl : File) (net : Net) (names : List String) (order : List Nat)
+    (h : compatB c net names = true) :
+    (nxtOf c fl net order).length = (extract fl).length ∧ ∀ col ∈ nxtOf c fl net order, col.length = c.sNodes.length :=
+  nxtOf_shape order h
+
+/-- **the assignment (state).** What the simulator is given for scan cell `x`: its input slot holds the loaded value -/
+theorem loc_assignment_state (c : Circ) (fl : File) (net : Net) (names : List String) (p : Pat)
+    (ch : Chain) (pre post : List String) (x : String) (s : List Char) (cj : Char)
+    (hcompat : compatB c net names = true)
+    (hch : ch ∈ fl.chains) (hmid : ch.mid = pre ++ x :: post) (hx : isMark x = false) (hxin : x ∈ c.sNodes)
+    (hnd : ((mapsPure .spec c fl).scanRows ++ (mapsPure .spec c fl).pi).Nodup)
+    (hs : p.load.lookup ch.si = some s) (hcj : s[(cellsOf post).length]? = some cj) :
+    envOf net (initCol (mapsPure .spec c fl) p) (net.idx.ppi + c.sNodes.idxOf x) =
+      invLoad (odd (markers pre)) (interp cj) := by
+  obtain ⟨n, _, _, hlt⟩ := row_node hcompat hxin
+  rw [envOf_ppi net _ _ hlt, List.getD_eq_getElem?_getD]
+  have : (initCol (mapsPure .spec c fl) p)[c.sNodes.idxOf x]? = some (invLoad (odd (markers pre)) (interp cj)) := by
+    unfold initCol
+    apply applyWrites_get_unique
+    · rw [List.map_append]
+      exact ((loadWrites_targets _ _ _).append (zip_fst_sublist _ _)).nodup hnd
+    · exact List.mem_append_left _ (loadWrites_mem c fl p ch pre post x invLoad hch hmid hx hs hcj)
+    · rw [blank_length, mapsPure_n]; exact List.idxOf_lt_length_iff.2 hxin
+  rw [this]; rfl
+
+/-- **the assignment (inputs).** … and for the `k`-th member of `_pi` character `k` of the launch call's `_pi` string (of the
+capture call's when there is no launch call) -/
+theorem loc_assignment_input (c : Circ) (fl : File) (net : Net) (names : List String) (p : Pat)
+    (k : Nat) (x : String) (ci : Char) (hcompat : compatB c net names = true)
+    (hk : (group fl "_pi")[k]? = some x) (hxin : x ∈ c.sNodes)
+    (hnd : ((mapsPure .spec c fl).scanRows ++ (mapsPure .spec c fl).pi).Nodup)
+    (hci : (initPiStr p)[k]? = some ci) :
+    envOf net (initCol (mapsPure .spec c fl) p) (net.idx.ppi + c.sNodes.idxOf x) = interp ci := by
+  obtain ⟨n, _, _, hlt⟩ := row_node hcompat hxin
+  rw [envOf_ppi net _ _ hlt, List.getD_eq_getElem?_getD]
+  have : (initCol (mapsPure .spec c fl) p)[c.sNodes.idxOf x]? = some (interp ci) := by
+    unfold initCol
+    apply applyWrites_get_unique
+    · rw [List.map_append]
+      exact ((loadWrites_targets _ _ _).append (zip_fst_sublist _ _)).nodup hnd
+    · exact List.mem_append_right _ (group_write_mem c _ _ k x ci hk hci)
+    · rw [blank_length, mapsPure_n]; exact List.idxOf_lt_length_iff.2 hxin
+  rw [this]; rfl
+
+/-- **the assignment (rest).** every signal that is not an input slot — the constant-0 slot, the scratch slots, lines before
+they are written — starts as `ZERO` -/
+theorem loc_assignment_rest (net : Net) (col : List V3) (y : Nat) (h : y < net.idx.ppi ∨ net.idx.ppo ≤ y) :
+    envOf net col y = V3.zero := envOf_outside net col y h
+
+/-- **existence and uniqueness of σ.** For every well-formed netlist, topological order and init column there is a labelling
+consistent with the netlist — the simulation result — and every consistent labelling equals it on every signal but the
+scratch slot, in particular on every line (C02 `sim8_netlist_all_circuits` at the stimulus of `tests_loc`) -/
+theorem loc_labelling_unique (net : Net) (order : List Nat) (hwf : net.wfB = true) (ho : orderOKB net order = true)
+    (hfk : forksOKB net order = true) (col : List V3) :
+    NetConsistent net order specNot prim8 (envOf net col) (valOf net order col) ∧
+    ∀ σ, NetConsistent net order specNot prim8 (envOf net col) σ → ∀ y, y ≠ net.idx.tmp → σ y = valOf net order col y :=
+  ⟨valOf_consistent net order hwf ho hfk col, valOf_unique net order hwf ho hfk col⟩
+
+/-- **tests_loc_rows.** With its own simulation, the value `tests_loc` returns for scan cell `x` is
+`mv_transition(loaded value, captured row)`; `captured` reads the result of the `SimOps` program at the line the `r`-th
+`s_nodes` element captures (general form: any pin connection) -/
+theorem tests_loc_rows (c : Circ) (fl : File) (net : Net) (names : List String) (order : List Nat)
+    (M : List (List V3)) (i : Nat) (p : Pat)
+    (ch : Chain) (pre post : List String) (x : String) (s : List Char) (cj : Char)
+    (hcompat : compatB c net names = true)
+    (hok : testsLoc .spec c fl (nxtOf c fl net order) = .ok M) (hp : (extract fl)[i]? = some p)
+    (hch : ch ∈ fl.chains) (hmid : ch.mid = pre ++ x :: post) (hx : isMark x = false) (hxin : x ∈ c.sNodes)
+    (hnd : ((mapsPure .spec c fl).scanRows ++ (mapsPure .spec c fl).pi ++ (mapsPure .spec c fl).po).Nodup)
+    (hs : p.load.lookup ch.si = some s) (hcj : s[(cellsOf post).length]? = some cj) :
+    ∃ col, M[i]? = some col ∧ c.sNodes[c.sNodes.idxOf x]? = some x ∧
+      col[c.sNodes.idxOf x]? = some (mvTransition (invLoad (odd (markers pre)) (interp cj))
+        (if noLaunchPulse p then xorInv (odd (markers pre)) (interp cj)
+         else captured net (valOf net order (initCol (mapsPure .spec c fl) p)) (c.sNodes.idxOf x))) := by
+  obtain ⟨n, _, _, hlt⟩ := row_node hcompat hxin
+  have := loc_transition c fl _ M i p _ ch pre post x s cj hok hp (nxtOf_get hp) hch hmid hx hxin hnd hs hcj
+  rwa [simRow_getD _ _ _ _ _ _ hlt] at this
+
+/-- **tests_loc_end_to_end (flip-flops).** For every well-formed netlist and topological order, every chain / marker / pattern
+set: the value `tests_loc` returns for scan cell `x` in pattern `i` is `mv_transition(loaded value, σ(data line of x))`, where
+`n` is the node named `x` (the `r`-th `s_nodes` element, `r` = row of `x`), `l` the line on its input pin 0, and `σ` the (unique)
+labelling consistent with the netlist under the assignment of `loc_assignment_state/_input/_rest` — and the loaded state
+itself (through `mv_xor`) under the no-pulse rule. -/
+theorem tests_loc_end_to_end (c : Circ) (fl : File) (net : Net) (names : List String) (order : List Nat)
+    (M : List (List V3)) (i : Nat) (p : Pat)
+    (ch : Chain) (pre post : List String) (x : String) (s : List Char) (cj : Char) (σ : Nat → V3) (n l : Nat)
+    (hwf : net.wfB = true) (ho : orderOKB net order = true) (hfk : forksOKB net order = true)
+    (hcompat : compatB c net names = true)
+    (hok : testsLoc .spec c fl (nxtOf c fl net order) = .ok M) (hp : (extract fl)[i]? = some p)
+    (hch : ch ∈ fl.chains) (hmid : ch.mid = pre ++ x :: post) (hx : isMark x = false) (hxin : x ∈ c.sNodes)
+    (hnd : ((mapsPure .spec c fl).scanRows ++ (mapsPure .spec c fl).pi ++ (mapsPure .spec c fl).po).Nodup)
+    (hs : p.load.lookup ch.si = some s) (hcj : s[(cellsOf post).length]? = some cj)
+    (hσ : NetConsistent net order specNot prim8 (envOf net (initCol (mapsPure .spec c fl) p)) σ)
+    (hn : net.sNodes[c.sNodes.idxOf x]? = some n) (hl : (net.node n).inPin 0 = some l) :
+    ∃ col, M[i]? = some col ∧ c.sNodes[c.sNodes.idxOf x]? = some x ∧ nameAt names n = x ∧
+      col[c.sNodes.idxOf x]? = some (mvTransition (invLoad (odd (markers pre)) (interp cj))
+        (if noLaunchPulse p then xorInv (odd (markers pre)) (interp cj) else σ l)) := by
+  obtain ⟨col, h1, h2, h3⟩ := tests_loc_rows c fl net names order M i p ch pre post x s cj hcompat hok hp hch hmid hx hxin
+    hnd hs hcj
+  obtain ⟨n', hn', hname, _⟩ := row_node hcompat hxin
+  rw [hn] at hn'; injection hn' with hn'; subst hn'
+  refine ⟨col, h1, h2, hname, ?_⟩
+  rw [h3, captured_pin hn hl, captured_of_consistent net order hwf ho hfk _ σ hσ hl]
+
+/-- a state element without data connection captures the constant 0 (sim.py:309-310) -/
+theorem tests_loc_end_to_end_open (c : Circ) (fl : File) (net : Net) (names : List String) (order : List Nat)
+    (M : List (List V3)) (i : Nat) (p : Pat)
+    (ch : Chain) (pre post : List String) (x : String) (s : List Char) (cj : Char) (n : Nat)
+    (hcompat : compatB c net names = true)
+    (hok : testsLoc .spec c fl (nxtOf c fl net order) = .ok M) (hp : (extract fl)[i]? = some p)
+    (hch : ch ∈ fl.chains) (hmid : ch.mid = pre ++ x :: post) (hx : isMark x = false) (hxin : x ∈ c.sNodes)
+    (hnd : ((mapsPure .spec c fl).scanRows ++ (mapsPure .spec c fl).pi ++ (mapsPure .spec c fl).po).Nodup)
+    (hs : p.load.lookup ch.si = some s) (hcj : s[(cellsOf post).length]? = some cj)
+    (hn : net.sNodes[c.sNodes.idxOf x]? = some n) (hl : (net.node n).inPin 0 = none)
+    (hst : net.io.length ≤ c.sNodes.idxOf x) :
+    ∃ col, M[i]? = some col ∧ c.sNodes[c.sNodes.idxOf x]? = some x ∧
+      col[c.sNodes.idxOf x]? = some (mvTransition (invLoad (odd (markers pre)) (interp cj))
+        (if noLaunchPulse p then xorInv (odd (markers pre)) (interp cj) else V3.zero)) := by
+  obtain ⟨col, h1, h2, h3⟩ := tests_loc_rows c fl net names order M i p ch pre post x s cj hcompat hok hp hch hmid hx hxin
+    hnd hs hcj
+  exact ⟨col, h1, h2, by rw [h3, captured_open_state hn hl hst]⟩
+
+/-- **tests_loc_end_to_end (inputs).** For the `k`-th member `x` of `_pi`, as in `loc_transition_input`; without a capture
+pulse the launch value is what the simulator captured for that port: the line it reads if it is driven (`σ l`), and
+`UNASSIGNED` for a port without driver (an input) -/
+theorem tests_loc_end_to_end_input (c : Circ) (fl : File) (net : Net) (names : List String) (order : List Nat)
+    (M : List (List V3)) (i : Nat) (p : Pat) (k : Nat) (x : String) (ci cc : Char) (σ : Nat → V3) (n : Nat)
+    (hwf : net.wfB = true) (ho : orderOKB net order = true) (hfk : forksOKB net order = true)
+    (hcompat : compatB c net names = true)
+    (hok : testsLoc .spec c fl (nxtOf c fl net order) = .ok M) (hp : (extract fl)[i]? = some p)
+    (hk : (group fl "_pi")[k]? = some x) (hxin : x ∈ c.sNodes)
+    (hnd : ((mapsPure .spec c fl).scanRows ++ (mapsPure .spec c fl).pi ++ (mapsPure .spec c fl).po).Nodup)
+    (hci : (initPiStr p)[k]? = some ci) (hcc : capturePulse p = true → (str p.capture "_pi")[k]? = some cc)
+    (hσ : NetConsistent net order specNot prim8 (envOf net (initCol (mapsPure .spec c fl) p)) σ)
+    (hn : net.sNodes[c.sNodes.idxOf x]? = some n) (hio : c.sNodes.idxOf x < net.io.length) :
+    ∃ col, M[i]? = some col ∧ c.sNodes[c.sNodes.idxOf x]? = some x ∧ nameAt names n = x ∧
+      col[c.sNodes.idxOf x]? = some (mvTransition (interp ci)
+        (if capturePulse p then interp cc else
+          match (net.node n).inPin 0 with
+          | some l => σ l
+          | none => V3.unassigned)) := by
+  obtain ⟨n', hn', hname, hlt⟩ := row_node hcompat hxin
+  rw [hn] at hn'; injection hn' with hn'; subst hn'
+  obtain ⟨col, h1, h2, h3⟩ := loc_transition_input c fl _ M i p _ k x ci cc hok hp (nxtOf_get hp) hk hxin hnd hci hcc
+  refine ⟨col, h1, h2, hname, ?_⟩
+  rw [h3, simRow_getD _ _ _ _ _ _ hlt]
+  cases hl : (net.node n).inPin 0 with
+  | none => rw [captured_open_port hn hl hio]
+  | some l =>
+    rw [captured_pin hn hl]
+    have := captured_of_consistent net order hwf ho hfk _ σ hσ hl
+    unfold valOf at this
+    rw [this]
+
+/-- **memory level.** `nxtOf` is stated on signals; what `c_to_s` reads is a memory row.  For the tables the `SimOps` model
+builds with the options of `tests_loc` (`strip_forks = False`, `c_reuse = False`; any capacity vector, `c_caps_min > 0`), after
+the op rows have run ON MEMORY from any initial memory `m0` that holds the stimulus in the slots no row writes (`h0`: what
+`np.zeros` + `s_to_c` leave), the row of the output slot of the `i`-th `s_nodes` element is the entry `i` of the model's column
+(composition with `C08.simops_map_accepted` through `simops_mem_value`; domain `readsDrivenB`: every read or captured line is
+written by a row) -/
+theorem nxtOf_memory (net : Net) (order : List Nat) (capsIn : Nat → Nat) (capsMin : Nat) (hwf : net.wfB = true)
+    (ho : orderOKB net order = true) (hr : readsDrivenB Gen.kindPrefixes net order = true) (hpos : 0 < capsMin)
+    (col : List V3) (m0 : Int → V3)
+    (h0 : ∀ x ∈ (simopsMap Gen.kindPrefixes net order false capsIn capsMin false).tracked,
+      (∀ o ∈ (simopsMap Gen.kindPrefixes net order false capsIn capsMin false).ops, o.out ≠ x) →
+        m0 ((simopsMap Gen.kindPrefixes net order false capsIn capsMin false).loc x) = envOf net col x)
+    (n i l : Nat) (hn : (n, i) ∈ net.sNodes.zipIdx) (hl : (net.node n).inPin 0 = some l) :
+    MapSound.memRun (simopsMap Gen.kindPrefixes net order false capsIn capsMin false) (MapSound.rowRW V3)
+        (fun o => semL8 o.lut) (simopsMap Gen.kindPrefixes net order false capsIn capsMin false).ops m0
+        ((simopsMap Gen.kindPrefixes net order false capsIn capsMin false).loc (net.idx.ppo + i)) =
+      (simRow semL8 (ops8 net order) net col).getD i V3.unknown := by
+  have hi : net.sNodes[i]? = some n := mem_zipIdx_getElem? hn
+  have hlt : i < net.sNodes.length := (List.getElem?_eq_some_iff.mp hi).1
+  rw [simRow_getD _ _ _ _ _ _ hlt, captured_pin hi hl]
+  exact simops_mem_value Gen.kindPrefixes net order false capsIn capsMin false hwf ho (fun h => by cases h) hr hpos semL8 default
+    (fun h => by cases h) m0 (envOf net col) h0 n i l hn hl
+
 /-! ## non-vacuity: a chain with markers at both ends and adjacent markers, lower-case `dff`, a latch -/
 def exC : Circ := ⟨["a", "si", "z", "so"], [("f0", "DFF"), ("g", "AND2"), ("f1", "dff"), ("l0", "LATCH"), ("f2", "SDFFX1")]⟩
 def exChain : Chain := ⟨"si", ["!", "f0", "!", "!", "f1", "f2", "!"], "so"⟩
@@ -396,6 +612,79 @@ example : ∃ col, exLoc[0]? = some col ∧ exC.sNodes[exC.sNodes.idxOf "si"]? =
     (by decide +kernel) (by decide +kernel) (by decide +kernel) (by decide +kernel) (by decide +kernel)
     (by decide +kernel) (by decide +kernel) (fun _ => by decide +kernel)
 example : mvTransition (interp '0') (interp '1') = rise := by decide +kernel
+
+/-! ### non-vacuity of the end-to-end statements: ports `a`, `si`, `z`, `so`; `f0 = DFF(si)`, `f1 = dff(g)`, `g = AND2(a, f0.Q)`,
+`so = f1.Q`, `z = f1.QN`; chain `si f0 ! f1 so`; load `01` (f1 = 0 inverted = 1, f0 = 1), launch `_pi` = `P0` (`si` pulses,
+`a` = 0), capture `_pi` = `P1` -/
+def e2eNet : Net :=
+  { nodes := #[⟨"input", [], [some 0]⟩, ⟨"input", [], [some 1]⟩, ⟨"DFF", [some 1], [some 2]⟩,
+               ⟨"dff", [some 3], [some 4, some 5]⟩, ⟨"AND2", [some 0, some 2], [some 3]⟩,
+               ⟨"output", [some 5], []⟩, ⟨"output", [some 4], []⟩],
+    lines := #[⟨0, 0, 4, 0⟩, ⟨1, 0, 2, 0⟩, ⟨2, 0, 4, 1⟩, ⟨4, 0, 3, 0⟩, ⟨3, 0, 6, 0⟩, ⟨3, 1, 5, 0⟩],
+    io := [0, 1, 5, 6] }
+def e2eNames : List String := ["a", "si", "f0", "f1", "g", "z", "so"]
+def e2eOrder : List Nat := [0, 1, 2, 3, 4, 5, 6]
+def e2eC : Circ := ⟨["a", "si", "z", "so"],
+  [("a", "input"), ("si", "input"), ("f0", "DFF"), ("f1", "dff"), ("g", "AND2"), ("z", "output"), ("so", "output")]⟩
+def e2eChain : Chain := ⟨"si", ["f0", "!", "f1"], "so"⟩
+def e2eF : File := ⟨[("_pi", ["si", "a"]), ("_po", ["so", "z"])], [e2eChain],
+  [⟨"load_unload", [("si", "01".toList)]⟩, ⟨"allclock_launch", [("_pi", "P0".toList)]⟩,
+   ⟨"allclock_capture", [("_pi", "P1".toList), ("_po", "LH".toList)]⟩, ⟨"load_unload", [("so", "LH".toList)]⟩]⟩
+def e2eP : Pat := ⟨[("si", "01".toList)], [("_pi", "P0".toList)], [("_pi", "P1".toList), ("_po", "LH".toList)], [("so", "LH".toList)]⟩
+/-- rows: a si z so f0 f1 -/
+def e2eNxt : List (List V3) := [[2, 2, 0, 3, 4, 0].map v]
+def e2eLoc : List (List V3) := [[5, 0, 2, 2, 6, 6].map v]
+
+theorem e2e_hyps : e2eNet.wfB = true ∧ orderOKB e2eNet e2eOrder = true ∧ forksOKB e2eNet e2eOrder = true ∧
+    compatB e2eC e2eNet e2eNames = true := by decide +kernel
+example : e2eC.sNodes = ["a", "si", "z", "so", "f0", "f1"] ∧ e2eNet.sNodes = [0, 1, 5, 6, 2, 3] := by decide +kernel
+example : (extract e2eF)[0]? = some e2eP ∧ noLaunchPulse e2eP = false := by decide +kernel
+/-- the simulation of the model: `f0` captures the pulse on `si`, `f1` captures `a AND f0 = 0`, `z = NOT f1 = 0`, `so = f1 = 1`,
+    the undriven ports stay unassigned -/
+theorem e2e_nxt : nxtOf e2eC e2eF e2eNet e2eOrder = e2eNxt := by decide +kernel
+theorem e2e_loc : testsLoc .spec e2eC e2eF (nxtOf e2eC e2eF e2eNet e2eOrder) = .ok e2eLoc := by
+  rw [e2e_nxt]; decide +kernel
+/-- all hypotheses of `tests_loc_end_to_end` hold for cell `f1` (node 3, data line 3 = output of `g`), `σ` = the simulation
+    result, which `loc_labelling_unique` shows consistent; the value is `mv_transition(1, 0)`: a falling transition -/
+example : ∃ col, e2eLoc[0]? = some col ∧ e2eC.sNodes[e2eC.sNodes.idxOf "f1"]? = some "f1" ∧ nameAt e2eNames 3 = "f1" ∧
+    col[e2eC.sNodes.idxOf "f1"]? = some (mvTransition (invLoad (odd (markers ["f0", "!"])) (interp '0'))
+      (if noLaunchPulse e2eP then xorInv (odd (markers ["f0", "!"])) (interp '0')
+       else valOf e2eNet e2eOrder (initCol (mapsPure .spec e2eC e2eF) e2eP) 3)) :=
+  tests_loc_end_to_end e2eC e2eF e2eNet e2eNames e2eOrder e2eLoc 0 e2eP e2eChain ["f0", "!"] [] "f1" "01".toList '0' _ 3 3
+    e2e_hyps.1 e2e_hyps.2.1 e2e_hyps.2.2.1 e2e_hyps.2.2.2 e2e_loc (by decide +kernel) (by decide +kernel)
+    (by decide +kernel) (by decide +kernel) (by decide +kernel) (by decide +kernel) (by decide +kernel) (by decide +kernel)
+    (loc_labelling_unique e2eNet e2eOrder e2e_hyps.1 e2e_hyps.2.1 e2e_hyps.2.2.1 _).1 (by decide +kernel) (by decide +kernel)
+example : mvTransition (invLoad (odd (markers ["f0", "!"])) (interp '0'))
+    (valOf e2eNet e2eOrder (initCol (mapsPure .spec e2eC e2eF) e2eP) 3) = fall := by decide +kernel
+/-- the assignment the simulator was given: `f1` = 1 (loaded 0 behind one marker), `a` = 0 (second member of `_pi`) -/
+example : envOf e2eNet (initCol (mapsPure .spec e2eC e2eF) e2eP) (e2eNet.idx.ppi + e2eC.sNodes.idxOf "f1") = V3.one ∧
+    envOf e2eNet (initCol (mapsPure .spec e2eC e2eF) e2eP) (e2eNet.idx.ppi + e2eC.sNodes.idxOf "a") = V3.zero := by
+  decide +kernel
+/-- hypotheses of `tests_loc_end_to_end_input` for the input `a` (node 0, no driver, capture pulse present) -/
+example : ∃ col, e2eLoc[0]? = some col ∧ e2eC.sNodes[e2eC.sNodes.idxOf "a"]? = some "a" ∧ nameAt e2eNames 0 = "a" ∧
+    col[e2eC.sNodes.idxOf "a"]? = some (mvTransition (interp '0')
+      (if capturePulse e2eP then interp '1' else
+        match (e2eNet.node 0).inPin 0 with
+        | some l => valOf e2eNet e2eOrder (initCol (mapsPure .spec e2eC e2eF) e2eP) l
+        | none => V3.unassigned)) :=
+  tests_loc_end_to_end_input e2eC e2eF e2eNet e2eNames e2eOrder e2eLoc 0 e2eP 1 "a" '0' '1' _ 0
+    e2e_hyps.1 e2e_hyps.2.1 e2e_hyps.2.2.1 e2e_hyps.2.2.2 e2e_loc (by decide +kernel) (by decide +kernel)
+    (by decide +kernel) (by decide +kernel) (by decide +kernel) (fun _ => by decide +kernel)
+    (loc_labelling_unique e2eNet e2eOrder e2e_hyps.1 e2e_hyps.2.1 e2e_hyps.2.2.1 _).1 (by decide +kernel) (by decide +kernel)
+
+/-- hypotheses of `nxtOf_memory` on the example (capacity 1 everywhere): the initial memory holds the stimulus in the input
+    slots (`a` at location 3, `si` at 4, `f0` at 5, `f1` at 6, the constant 0 at 0); the output slot of `f1` (position 5, node 3,
+    data line 3) then holds entry 5 of the model's column, the plain 0 -/
+def e2eM0 : Int → V3 := fun a => if a = 4 then ppulse else if a = 5 ∨ a = 6 then V3.one else V3.zero
+theorem e2eM0_ok : ∀ x ∈ (simopsMap Gen.kindPrefixes e2eNet e2eOrder false (fun _ => 1) 1 false).tracked,
+    (∀ o ∈ (simopsMap Gen.kindPrefixes e2eNet e2eOrder false (fun _ => 1) 1 false).ops, o.out ≠ x) →
+      e2eM0 ((simopsMap Gen.kindPrefixes e2eNet e2eOrder false (fun _ => 1) 1 false).loc x) =
+        envOf e2eNet (initCol (mapsPure .spec e2eC e2eF) e2eP) x := by decide +kernel
+example : MapSound.memRun (simopsMap Gen.kindPrefixes e2eNet e2eOrder false (fun _ => 1) 1 false) (MapSound.rowRW V3)
+      (fun o => semL8 o.lut) (simopsMap Gen.kindPrefixes e2eNet e2eOrder false (fun _ => 1) 1 false).ops e2eM0
+      ((simopsMap Gen.kindPrefixes e2eNet e2eOrder false (fun _ => 1) 1 false).loc (e2eNet.idx.ppo + 5)) = V3.zero :=
+  (nxtOf_memory e2eNet e2eOrder (fun _ => 1) 1 e2e_hyps.1 e2e_hyps.2.1 (by decide +kernel) (by decide) _ e2eM0 e2eM0_ok 3 5 3
+    (by decide +kernel) (by decide +kernel)).trans (by decide +kernel)
 
 /-- finding D12 as a model statement: chain `f0 ! f1 f2`, load `100`: the property asks for f0 = 0, the as-found
 variant (first flag only) gives f0 = 1 -/
